@@ -164,6 +164,11 @@ class PathCtx:
         self._add(t if b else z3.Not(t))
         return b
 
+    def choose(self):
+        """ a free (non-deterministic) boolean choice: both alternatives are explored """
+        self.fresh += 1
+        return self.decide(z3.Bool(f"choice!{self.fresh}"))
+
     def assume(self, cond):
         """ restrict the path; abandon it if the assumption is infeasible """
         if self.concrete is not None:
